@@ -6,7 +6,7 @@ from hypothesis import strategies as st
 from vlib import env, core, kf  # noqa: F401
 
 ID = "C16"
-BUDGET = {"quick": 4000, "thorough": 40000}
+BUDGET = {"quick": 6000, "thorough": 40000}
 RULE = ("Hypothesis draws a start point in +-200, a centre direction, a radius log-uniform in [0.2, 500], a sweep in "
         "[1e-3, 2pi-1e-3] (or an exact full circle on dyadic coordinates), a direction and a form: I/J straight into planArc, R "
         "through computeArcCenterOffsets (R>0 for sweeps <= pi, R<0 beyond), and both end to end through handleGcode('G2/G3 ...') "
